@@ -2608,12 +2608,22 @@ impl Node {
         self.get_state().allowlist.iter().cloned().collect()
     }
 
+    fn parse_allowables(&self, entries: &[String]) -> Result<Vec<Allowable>, Status> {
+        entries
+            .iter()
+            .map(|a| {
+                Allowable::from_str(a, self.node_config.network)
+                    .map_err(|e| invalid_argument(format!("could not parse {}", e)))
+            })
+            .collect()
+    }
+
     /// Adds addresses to the node's current allowlist.
     pub fn add_allowlist(&self, adds: &[String]) -> Result<(), Status> {
+        // parse everything before touching the list: a refused request must not change it
+        let allowables = self.parse_allowables(adds)?;
         let mut state = self.get_state();
-        for a in adds.iter() {
-            let allowable = Allowable::from_str(a, self.node_config.network)
-                .map_err(|e| invalid_argument(format!("could not parse {}", e)))?;
+        for allowable in allowables {
             state.allowlist.insert(allowable);
         }
         self.update_allowlist(&state)?;
@@ -2622,11 +2632,10 @@ impl Node {
 
     /// Replace the node's allowlist with the provided allowlist.
     pub fn set_allowlist(&self, list: &[String]) -> Result<(), Status> {
+        let allowables = self.parse_allowables(list)?;
         let mut state = self.get_state();
         state.allowlist.clear();
-        for a in list.iter() {
-            let allowable = Allowable::from_str(a, self.node_config.network)
-                .map_err(|e| invalid_argument(format!("could not parse {}", e)))?;
+        for allowable in allowables {
             state.allowlist.insert(allowable);
         }
         self.update_allowlist(&state)?;
@@ -2642,11 +2651,10 @@ impl Node {
 
     /// Removes addresses from the node's current allowlist.
     pub fn remove_allowlist(&self, removes: &[String]) -> Result<(), Status> {
+        let allowables = self.parse_allowables(removes)?;
         let mut state = self.get_state();
-        for r in removes.iter() {
-            let allowable = Allowable::from_str(r, self.node_config.network)
-                .map_err(|e| invalid_argument(format!("could not parse {}", e)))?;
-            state.allowlist.remove(&allowable);
+        for allowable in allowables.iter() {
+            state.allowlist.remove(allowable);
         }
         self.update_allowlist(&state)?;
         Ok(())
